@@ -316,6 +316,70 @@ def check_formula_case(case, ctx):
                 accepted=[xl.show(want)]))
 
 
+# -- constants stored on multi-cell references (dictionaries only) --------------------
+
+def make_multiconst_case(seed, i):
+    rng = random.Random('fvmon/C08/mc/%s/%s' % (seed, i))
+    n = rng.randint(4, 7)                      # column A, rows 1..n
+    r1 = rng.randint(1, n - 1)
+    r2 = min(n, r1 + rng.randint(1, 2))
+    d = {'A%d:A%d' % (r1, r2): float(rng.randint(2, 9))}
+    for r in range(1, n + 1):
+        if not r1 <= r <= r2 and rng.random() < 0.85:
+            d['A%d' % r] = float(rng.randint(1, 9))
+    d['B1'] = '=SUM(A1:A%d)' % n
+    d['B2'] = '=SUM(A%d:A%d)*2' % (r1, r2)                 # reads the node itself
+    d['B3'] = '=A%d+10' % rng.randint(r1, r2)               # reads one member
+    d['B4'] = '=SUM(A1:A%d)-SUM(A%d:A%d)' % (n, r1, r2)
+    d['B5'] = '=B3*2+B2'
+    lo, hi = rng.randint(1, r1), rng.randint(r2, n)
+    inputs = ['A%d:A%d' % (lo, hi)]
+    if rng.random() < 0.4:
+        free = [r for r in range(1, n + 1) if not lo <= r <= hi and 'A%d' % r in d]
+        if free:
+            inputs.append('A%d' % rng.choice(free))
+    outputs = rng.sample(['B1', 'B2', 'B3', 'B4', 'B5'], rng.randint(2, 5))
+    args = []
+    for _ in range(4):
+        a = [[[float(rng.randint(-5, 40))] for _ in range(lo, hi + 1)]]
+        a += [float(rng.randint(-5, 40)) for _ in inputs[1:]]
+        args.append(a)
+    return {'kind': 'multiconst', 'id': i, 'cells': d, 'inputs': inputs,
+            'outputs': outputs, 'args': args}
+
+
+def check_multiconst_case(case, ctx):
+    import formulas
+    d, ins, outs = case['cells'], case['inputs'], case['outputs']
+    try:
+        m = formulas.ExcelModel().from_dict(dict(d))
+        m.calculate()
+        func = m.compile(ins, outs)
+    except Exception as ex:
+        ctx.violation('multiconst:compile-raised:%s' % type(ex).__name__, {
+            'case': case, 'observed': '%s: %s' % (type(ex).__name__, str(ex)[:150]),
+            'accepted': ['a function']})
+        return
+    ctx.count('compiled')
+    for args in case['args']:
+        ctx.case(('multiconst', case['id'], args))
+        try:
+            got = [xl.canon(xl.scalar(v)) for v in func(*args)]
+            sol = m.calculate(inputs=dict(zip(ins, args)), outputs=outs)
+            want = [xl.canon(xl.scalar(sol[o])) for o in outs]
+        except Exception as ex:
+            ctx.count('multiconst.raised')
+            continue
+        ctx.count('monitor.compiled-vs-interpreted')
+        ctx.count('monitor.multiconst')
+        for o, g, w_ in zip(outs, got, want):
+            if not xl.same(g, w_, rel=1e-12):
+                ctx.violation('multiconst:differs:%s->%s' % (wbrun._cls(g), wbrun._cls(w_)), {
+                    'case': dict(case, args=[args]), 'cell': o, 'formula': d[o],
+                    'arguments': args, 'observed': xl.show(g),
+                    'accepted': [xl.show(w_) + ' (calculate with the same inputs)']})
+
+
 def plan(tier, seed):
     nm = 96 if tier == 'quick' else 1400
     per = 8 if tier == 'quick' else 40
@@ -323,17 +387,29 @@ def plan(tier, seed):
              for lo in range(0, nm, per)]
     for i in range(2 if tier == 'quick' else 16):
         specs.append({'kind': 'formulas', 'count': 700 if tier == 'quick' else 3000})
+    nmc = 200 if tier == 'quick' else 3000
+    for lo in range(0, nmc, 100):
+        specs.append({'kind': 'multiconst', 'lo': lo, 'hi': lo + 100})
     return specs
 
 
 def check_case(case, ctx):
-    if case['kind'] == 'model':
+    if case['kind'] == 'multiconst':
+        check_multiconst_case(case, ctx)
+    elif case['kind'] == 'model':
         check_model_case(case, ctx)
     else:
         check_formula_case(case, ctx)
 
 
 def run(spec, ctx):
+    if spec['kind'] == 'multiconst':
+        for i in range(spec['lo'], spec['hi']):
+            case = make_multiconst_case(spec['seed'], i)
+            check_multiconst_case(case, ctx)
+        ctx.sample({'cells': case['cells'], 'inputs': case['inputs'],
+                    'outputs': case['outputs']})
+        return
     if spec['kind'] == 'models':
         for i in range(spec['lo'], spec['hi']):
             for case in make_model_case(spec['seed'], i) or ():
@@ -358,7 +434,8 @@ def finalize(agg, tier):
     c, inc = agg['counters'], []
     for k, floor in (('monitor.compiled-vs-interpreted', 800),
                      ('monitor.compiled-vs-reference', 500),
-                     ('monitor.formula-vs-literals', 2000), ('compiled', 150)):
+                     ('monitor.formula-vs-literals', 2000), ('compiled', 150),
+                     ('monitor.multiconst', 400)):
         if c.get(k, 0) < floor:
             inc.append('monitor %s saw %d events (< %d)' % (k, c.get(k, 0), floor))
     if c.get('compiled.with-frozen-values', 0) * 10 < 3 * c.get('compiled', 1):
